@@ -66,11 +66,11 @@ def filter_agreement(chk, P, unit, name_a, name_b, rule="R-SIBLING", min_atoms=1
                 adv.add(strip(a[2]).get("fn"))
     atoms = [_atoms(f, lvn, adv) for f, lvn in zip(fs, lvs)]
     keys = sorted(set(atoms[0].values()) | set(atoms[1].values()))
-    # a predicate that is a function of the program and is consulted by one walker only is most likely the other walker's tests
+    # a predicate that is a function of the walkers' own unit (not a library predicate) and is consulted by one walker only is most likely the other walker's tests
     # moved into a helper: its result is not independent of the remaining predicates, so the valuations cannot be compared
     for k in keys:
         g = P.func(k.split("(")[0])
-        if g is not None and g.entry is not None and (k in atoms[0].values()) != (k in atoms[1].values()):
+        if g is not None and g.entry is not None and g.unit is fs[0].unit and (k in atoms[0].values()) != (k in atoms[1].values()):
             chk.broke("%s: %s is consulted by only one of %s / %s: filters not comparable by valuation (tests moved into a helper on one side?)" % (rule, k, name_a, name_b))
             return 0
     if not chk.need(len(keys) >= min_atoms and len(keys) <= 10, "%s: %d filter predicates found in %s / %s" % (rule, len(keys), name_a, name_b)):
